@@ -8,9 +8,14 @@ from __future__ import annotations
 import itertools
 import random
 import signal
+import sys
+import types
+from dataclasses import dataclass
 
 from pyoak.legacy.match.error import ASTXpathDefinitionError
 from pyoak.legacy.match.xpath import ASTXpath, ASTXpathAnywhereElement
+
+from pyoak.origin import NO_ORIGIN
 
 from proto import A, dumps
 from run import Case
@@ -36,13 +41,22 @@ RULE = ("attached legacy trees from harness/zoo_c20.py (single / optional / tupl
         "node (1-4 aligned members, anywhere gaps, field / index / class kept or perturbed, indices up to 13 and "
         "multi-digit / zero-padded), 30% free grammar walks incl. single-token mutations and random strings over the "
         "grammar alphabet; random whitespace between tokens; every node of the tree is a match() argument.  "
-        "calculate_xpath on every tree.  Non-trivial = tree (or start subtree) has >= 3 nodes (for xpath: and the "
+        "calculate_xpath on every tree, and HISTORIES: calculate_xpath, then successful edits of the attached tree at "
+        "random depths (replace_with a fresh / pre-calculated / previously removed subtree or None, replace() of a "
+        "property, of a child, adding a child at the front / back of a collection, no-op detach of an inner node, root "
+        "detach + attach), calculate_xpath again after the edit(s), every node of the CURRENT tree compared with the "
+        "model's spelling of its chain.  ORDER OF DEFINITION histories: a text naming a fresh class is used before the "
+        "class exists (must be rejected with the definition error), the class is then defined (exec in a throw-away "
+        "module, subclass of a zoo class or of another late class), the same text and new texts are compiled and "
+        "matched against the model with the extended class table.  Non-trivial = tree (or start subtree) has >= 3 nodes (for xpath: and the "
         "text parses and matches at least one node); distinct by request line")
 TRUSTED = ["lark LALR engine + contextual lexer are re-modelled by a hand-written lexer / recursive-descent parser",
            "the parent / parent_field / parent_index bookkeeping of an attached legacy tree agrees with the storage "
            "positions (that is property C18); the model reads the chain off the structure",
            "prune / filter callbacks are modelled as pure functions of the node object"]
 ASSUMPTIONS = ["trees are attached and admissible: every node object was created once and sits at exactly one position",
+               "history edits are the library's own operations and are only continued while they succeed (a rejected "
+               "edit ends the history: rollback is property C19); a class is not re-declared under the same name",
                "prune / filter callbacks are pure and total"]
 BUDGET = {"quick": 200, "thorough": 1800}
 
@@ -210,13 +224,17 @@ def gen_free(rng):
     return render(rng, toks)
 
 
-def gen_derived(rng, chains):
-    """an xpath spelled from the chain of a random node of the tree (mostly matching)"""
-    chain = rng.choice(chains)
+def gen_derived(rng, chains, classes=None, prefer=None):
+    """an xpath spelled from the chain of a random node of the tree (mostly matching); `prefer`:
+    chains to choose from with probability 0.7"""
+    classes = CLASSES if classes is None else classes
+    chain = rng.choice(prefer) if (prefer and rng.random() < 0.7) else rng.choice(chains)
     big = [ch for ch in chains if any(i is not None and i >= 10 for (_n, _f, i) in ch)]
     want_big = bool(big) and rng.random() < 0.3
-    if want_big:
+    if want_big and not prefer:
         chain = rng.choice(big)
+    else:
+        want_big = False
     idxs = set(rng.sample(range(len(chain)), min(len(chain), rng.choice([1, 1, 2, 3, 4]))) + [len(chain) - 1])
     if want_big:
         idxs |= {j for j, (_n, _f, i) in enumerate(chain) if i is not None and i >= 10}
@@ -246,8 +264,8 @@ def gen_derived(rng, chains):
         elif rng.random() < 0.08:
             toks += ["[", "]"]
         if k == len(idxs) - 1 or rng.random() < 0.7:
-            mro = [c.__name__ for c in type(n).__mro__ if c.__name__ in CLASSES]
-            toks.append(rng.choice(mro) if rng.random() < 0.92 else rng.choice(CLASSES))
+            mro = [c.__name__ for c in type(n).__mro__ if c.__name__ in classes]
+            toks.append(rng.choice(mro) if rng.random() < 0.92 else rng.choice(classes))
     return render(rng, toks)
 
 
@@ -263,10 +281,15 @@ def _els(xp):
 
 N_MATCHED = 0
 N_IDX2 = 0
+HIST = {"recalculations_after_edit": 0, "edits_applied": {}, "edits_rejected_history_ended": 0,
+        "edit_depth_ge_2": 0}
+LATE = {"classes_defined_after_first_use": 0, "texts_rejected_before_definition": 0,
+        "texts_accepted_after_definition": 0, "of_which_matching_a_node": 0}
 
 
 def extra_coverage():
-    return {"xpath_cases_with_a_match": N_MATCHED, "xpath_cases_with_two_digit_index_matching": N_IDX2}
+    return {"xpath_cases_with_a_match": N_MATCHED, "xpath_cases_with_two_digit_index_matching": N_IDX2,
+            "calc_histories": HIST, "late_class_histories": LATE}
 
 
 def xpath_cases(rng, root, env, toks, chains, text, desc):
@@ -324,6 +347,255 @@ def calc_case(root, env, toks, chains, desc):
                 sig="lcalc")
 
 
+# ------------------------------------------------------------------ calculate_xpath histories
+
+def _calc_obs(root, tag):
+    """calculate_xpath on the CURRENT tree; the request describes the current tree from the harness'
+    own walk of the stored fields (fresh tokens per observation)"""
+    toks = z.Tokens()
+    tree = z.enc_tree(root, toks)
+    chains = z.chains(root)
+    nodes = [ch[-1][0] for ch in chains]
+
+    def run():
+        r = root.calculate_xpath()
+        if r is not True:
+            return None
+        return [[toks.tok(n), n.xpath] for n in nodes]
+
+    v, err = guarded(run)
+    if err is not None:
+        real = dumps([A("raise"), A(err)])
+    elif v is None:
+        real = dumps([A("ok"), A("refused")])
+    else:
+        real = dumps([A("ok")] + v)
+    return Case("lcalc_history", dumps([A("lcalc"), z.class_table(), [A("tree"), tree]]), real, len(nodes) >= 3,
+                f"history: {tag} ; current tree={z.show(root)}", sig="lcalc|history")
+
+
+def _coll_value(old, items):
+    return list(items) if isinstance(old, list) else tuple(items)
+
+
+def history_cases(rng, n_hist, size_choices):
+    """calculate_xpath / edit / calculate_xpath ... on one attached tree"""
+    for _ in range(n_hist):
+        g = z.LGen(rng, twins=0.05)
+        root = g.tree(rng.choice(size_choices))
+        log = ["build " + z.show(root)]
+        removed = []          # subtrees taken out by replace_with (detached, stale xpaths)
+        yield _calc_obs(root, "first calculate_xpath on " + log[0])
+        pending = 0
+        for _step in range(rng.choice([1, 2, 3, 4, 6])):
+            chains = z.chains(root)
+            deep = [ch for ch in chains if len(ch) >= 3]
+            ch = rng.choice(deep) if (deep and rng.random() < 0.75) else rng.choice(chains)
+            inner = [c for c in (deep or chains) if z.CHILD_FIELDS[type(c[-1][0])]]
+            if inner and rng.random() < 0.3:
+                ch = rng.choice(inner)
+            n, f, i = ch[-1]
+            parent = ch[-2][0] if len(ch) > 1 else None
+            where = "".join(f"/@{ff or 'root'}[{ii if ii is not None else '-'}]{type(nn).__name__}" for nn, ff, ii in ch)
+
+            def fresh():
+                k = rng.random()
+                if removed and k < 0.2:
+                    sub = removed.pop(rng.randrange(len(removed)))
+                    return sub, "previously removed " + z.show(sub)
+                sub = g.tree(rng.choice([1, 1, 2, 3, 6]))
+                if k < 0.5:
+                    sub.calculate_xpath()          # stale '/@root[0]…' paths from its own life as a root
+                    return sub, "pre-calculated " + z.show(sub)
+                return sub, z.show(sub)
+
+            colls = [(name, getattr(n, name)) for name, coll in z.CHILD_FIELDS[type(n)] if coll]
+            opts = [name for name, coll in z.CHILD_FIELDS[type(n)] if not coll]
+            kinds = ["rw_node", "rw_node", "replace_prop"]
+            if parent is not None:
+                kinds += ["detach_noop"]
+                if i is not None or (type(parent), f) in {(z.LOpt, "c"), (z.LMixed, "a"), (z.LNames, "child"),
+                                                         (z.LNames, "root")}:
+                    kinds += ["rw_none", "rw_none"]
+            else:
+                kinds += ["root_detach_attach"]
+            if colls:
+                kinds += ["add_front", "add_back", "add_back"]
+            if opts:
+                kinds += ["set_child"]
+            kind = rng.choice(kinds)
+            new_root = [root]
+
+            def op():
+                if kind == "rw_node":
+                    sub, d = fresh()
+                    n.replace_with(sub)
+                    removed.append(n)
+                    if parent is None:
+                        new_root[0] = sub
+                    return f"{where}.replace_with({d})"
+                if kind == "rw_none":
+                    n.replace_with(None)
+                    removed.append(n)
+                    return f"{where}.replace_with(None)"
+                if kind == "replace_prop":
+                    if isinstance(n, z.LLeaf):
+                        ch_ = {"v": 9000 + rng.randint(0, 10 ** 6)}
+                    elif isinstance(n, z.LMixed):
+                        ch_ = {"name": n.name + "x"}
+                    else:
+                        ch_ = {"origin": NO_ORIGIN}
+                    m = n.replace(**ch_)
+                    if parent is None:
+                        new_root[0] = m
+                    return f"{where}.replace({ch_})"
+                if kind in ("add_front", "add_back"):
+                    name, old = rng.choice(colls)
+                    sub, d = fresh()
+                    items = [sub] + list(old) if kind == "add_front" else list(old) + [sub]
+                    m = n.replace(**{name: _coll_value(old, items)})
+                    if parent is None:
+                        new_root[0] = m
+                    return f"{where}.replace({name}=<{kind} {d}>)"
+                if kind == "set_child":
+                    name = rng.choice(opts)
+                    sub, d = fresh()
+                    oldc = getattr(n, name)
+                    m = n.replace(**{name: sub})
+                    if oldc is not None:
+                        removed.append(oldc)
+                    if parent is None:
+                        new_root[0] = m
+                    return f"{where}.replace({name}={d})"
+                if kind == "detach_noop":
+                    r = n.detach()
+                    return f"{where}.detach() -> {r}"
+                if kind == "root_detach_attach":
+                    r = root.detach()
+                    c = root.calculate_xpath()
+                    root.attach()
+                    return f"root.detach() -> {r}; calculate_xpath() -> {c}; root.attach()"
+                raise AssertionError(kind)
+
+            d, err = guarded(op)
+            if err is not None:
+                # a rejected edit ends the history (what it leaves behind is C19's subject)
+                HIST["edits_rejected_history_ended"] += 1
+                break
+            root = new_root[0]
+            log.append(d)
+            HIST["edits_applied"][kind] = HIST["edits_applied"].get(kind, 0) + 1
+            HIST["edit_depth_ge_2"] += 1 if len(ch) >= 3 else 0
+            pending += 1
+            if rng.random() < 0.8:
+                HIST["recalculations_after_edit"] += 1
+                pending = 0
+                yield _calc_obs(root, " ; ".join(log))
+        if pending:
+            HIST["recalculations_after_edit"] += 1
+            yield _calc_obs(root, " ; ".join(log))
+
+
+# ------------------------------------------------------------------ order of definition
+
+_LATE_SERIAL = 0
+
+
+def _define_late(name, base, extra_field):
+    """define `class name(base)` by exec in a throw-away module (as a plugin imported later would)"""
+    mod = types.ModuleType(f"c20_late_mod_{name}")
+    mod.__dict__.update({"dataclass": dataclass, base.__name__: base})
+    sys.modules[mod.__name__] = mod
+    src = f"@dataclass\nclass {name}({base.__name__}):\n    " + (f"{extra_field}: int = 0\n" if extra_field else "pass\n")
+    exec(src, mod.__dict__)
+    cls = mod.__dict__[name]
+    z.CHILD_FIELDS[cls] = list(z.CHILD_FIELDS[base])     # harness' own table (inherited child fields)
+    return cls
+
+
+class _LateGen(z.LGen):
+    """zoo trees in which some leaves / containers are instances of late classes"""
+
+    def __init__(self, rng, late):
+        super().__init__(rng, twins=0.0)
+        self.late = late
+
+    def leaf(self):
+        r = self.rng
+        if r.random() < 0.45:
+            cls = r.choice(self.late)
+            self.serial += 1
+            kw = {}
+            if issubclass(cls, z.LLeaf):
+                kw["v"] = 1000 + self.serial
+            if issubclass(cls, z.LTup):
+                kw["items"] = tuple(super(_LateGen, self).leaf() for _ in range(r.choice([0, 1, 2, 12])))
+            if issubclass(cls, z.LOpt) and r.random() < 0.7:
+                kw["c"] = super().leaf()
+            if "w" in cls.__dataclass_fields__:
+                kw["w"] = self.serial
+            return cls(origin=NO_ORIGIN, **kw)
+        return super().leaf()
+
+
+def late_class_cases(rng, n_hist, per_hist):
+    global _LATE_SERIAL
+    for _ in range(n_hist):
+        _LATE_SERIAL += 1
+        tag = f"{_LATE_SERIAL}x{rng.randrange(10 ** 6)}"
+        names = [f"C20Late{tag}A"] + ([f"C20Late{tag}B"] if rng.random() < 0.5 else [])
+        base0 = rng.choice([z.LExpr, z.LLeaf, z.LLeaf, z.LLeaf2, z.LTup, z.LOpt])
+        table0 = z.class_table()
+        # 1. first use, before the classes exist: well-formed texts naming them must be rejected
+        before = []
+        for _k in range(rng.choice([1, 2, 3])):
+            nm = rng.choice(names)
+            step = rng.choice([[nm], ["@", rng.choice(["items", "elems", "c", "z"]), nm], ["[", "1", "]", nm],
+                               ["@", "items", "[", "1", "1", "]", nm]])
+            pre = rng.choice([[], ["/"], ["/", "/"], ["/", "LTup", "/"], ["/", "/", "LExpr", "/", "/"]])
+            before.append(render(rng, pre + step))
+        for text in before:
+            xp, err = guarded(lambda: ASTXpath(text))
+            d = f"before class definition: text={text!r}"
+            if err == ASTXpathDefinitionError.__name__:
+                LATE["texts_rejected_before_definition"] += 1
+                yield Case("lxpath_reject", dumps([A("lxpath"), table0, [A("text"), text]]),
+                           dumps([A("raise"), A("ASTXpathDefinitionError")]), False, d, sig="lxpath|parse")
+            elif err is not None:
+                yield Case("lxpath_reject", None, None, True, d,
+                           oracle_fail=f"legacy ASTXpath(text) raised {err}, not the definition error",
+                           sig="lxpath|other-exception")
+            else:
+                yield Case("lxpath_reject", dumps([A("lxpath"), table0, [A("text"), text]]),
+                           dumps([A("ok")] + _els(xp)), False, d, sig="lxpath|parse")
+        # 2. the classes get defined
+        late = [_define_late(names[0], base0, rng.choice([None, "w"]))]
+        if len(names) > 1:
+            late.append(_define_late(names[1], rng.choice([late[0], base0, z.LExpr]), None))
+        LATE["classes_defined_after_first_use"] += len(late)
+        table1 = table0 + [[k.__name__ for k in c.__mro__] for c in late]
+        classes1 = CLASSES + names
+        g = _LateGen(rng, late)
+        root = g.tree(rng.choice([3, 5, 8, 12, 20]))
+        toks = z.Tokens()
+        env = [table1, [A("tree"), z.enc_tree(root, toks)]]
+        chains = z.chains(root)
+        prefer = [ch for ch in chains if type(ch[-1][0]) in late]
+        desc = z.show(root) + f" (late classes {[(c.__name__, c.__mro__[1].__name__) for c in late]} defined after " \
+                              f"the texts {before!r} had been rejected)"
+        # 3. the same texts again, then new ones
+        texts = list(before) + [gen_derived(rng, chains, classes1, prefer) for _k in range(per_hist)]
+        for text in texts:
+            for c in xpath_cases(rng, root, env, toks, chains, text, desc):
+                if c.kind == "lxpath" and any(nm in text for nm in names):
+                    LATE["texts_accepted_after_definition"] += 1
+                    LATE["of_which_matching_a_node"] += 1 if "true" in (c.real or "") else 0
+                if c.kind != "lxpath":
+                    c.desc += (f" ; AFTER the classes {[(k.__name__, k.__mro__[1].__name__) for k in late]} were defined"
+                               f" (the texts {before!r} had been used, and rejected, before the definition)")
+                yield c
+
+
 # ------------------------------------------------------------------ driver
 
 def _tree_cases(rng, root, n_xpaths, walkers=True):
@@ -351,6 +623,8 @@ def cases(rng: random.Random, tier: str):
         g = z.LGen(rng)
         root = g.tree(rng.choice(sizes))
         yield from _tree_cases(rng, root, per_tree)
+    yield from history_cases(rng, 300 if tier == "quick" else 4000, [3, 5, 8, 12, 20, 40])
+    yield from late_class_cases(rng, 40 if tier == "quick" else 400, 6 if tier == "quick" else 10)
     if tier == "thorough":
         # exhaustive predicates on small start subtrees
         cnt = 0
